@@ -94,6 +94,30 @@ const CCYS: &[&str] = &[
 
 // ------------------------------------------------------------------ generation
 
+/// Another spelling of the same currency: upper case, or title case where Unicode has one.
+fn other_case(rng: &mut Rng, s: &str) -> String {
+    let title: String = s
+        .chars()
+        .map(|c| match c {
+            '\u{1c6}' => '\u{1c5}', // dž -> Dž
+            '\u{1c9}' => '\u{1c8}', // lj -> Lj
+            '\u{1cc}' => '\u{1cb}', // nj -> Nj
+            '\u{1f3}' => '\u{1f2}', // dz -> Dz
+            o => o,
+        })
+        .collect();
+    let upper = s.to_uppercase();
+    // only spellings that are still legal 3-byte codes after lower-casing
+    let ok = |t: &String| t.to_lowercase() == s.to_lowercase() && t.to_lowercase().len() == 3;
+    if title != s && ok(&title) && rng.chance(0.5) {
+        title
+    } else if ok(&upper) {
+        upper
+    } else {
+        s.to_string()
+    }
+}
+
 /// A quote level: mostly log-uniform over eight decades, sometimes a "round" value
 /// (special-cased fast paths are a classic place for a slip).
 fn gen_level(rng: &mut Rng) -> f64 {
@@ -122,7 +146,19 @@ pub fn generate(rng: &mut Rng, tier: Tier) -> Plan {
         // size, and size thresholds are a classic place for a slip
         _ => rng.usize_in(13, if tier == Tier::Quick { 18 } else { 24 }),
     };
-    let mut names: Vec<&str> = CCYS.to_vec();
+    // mostly ISO-like codes; sometimes any legal 3-byte code: digits, punctuation, quotes,
+    // backslashes, control characters, non-ASCII and titlecase letters, near-identical codes
+    const EXOTIC: &[&str] = &[
+        "us1", "usq", "us0", "usp", "e\"r", "a\\b", "\u{1c6}a", "éa", "x\ty", "a b", "£1", "ñx", "a\u{0}b",
+        "z.z", "{}1", "[1]", "0e0", "nan", "inf", "1e9", "-1.", "ωa", "ßa", "ǉa", "ǳa",
+    ];
+    let mut names: Vec<&str> = if rng.chance(0.05) {
+        let mut v = EXOTIC.to_vec();
+        v.extend_from_slice(&CCYS[..8]);
+        v
+    } else {
+        CCYS.to_vec()
+    };
     rng.shuffle(&mut names);
     let ccys: Vec<String> = names[..n].iter().map(|s| s.to_string()).collect();
     let outsider = names[n].to_string();
@@ -257,10 +293,10 @@ pub fn generate(rng: &mut Rng, tier: Tier) -> Plan {
         if rng.chance(0.06) {
             for it in items.iter_mut() {
                 if rng.chance(0.5) {
-                    it.lhs = it.lhs.to_uppercase();
+                    it.lhs = other_case(rng, &it.lhs);
                 }
                 if rng.chance(0.5) {
-                    it.rhs = it.rhs.to_uppercase();
+                    it.rhs = other_case(rng, &it.rhs);
                 }
             }
         }
